@@ -396,6 +396,20 @@ def check_serial(report: Report, tier: str) -> dict:
                 if err:
                     hist = [("writes", tuple(repr(v) for v in seq), {})]
                     report.violation(explore.history_key(ID, "SerialMonitor", hist), f"SerialMonitor {seq!r}: {err}", {"subject": "SerialMonitor", "values": [repr(v) for v in seq], "message": err})
+        # configured terminators (the empty one included): exactly str(value) + terminator goes out
+        for nl in ("", "\r\n", "\r", ";", "\0", "\n\n", " "):
+            for v in values:
+                n += 1
+                fake = _FakeSerialModule()
+                C.serial = fake
+                mon = SerialMonitor(9600, "COM9", newline=nl)
+                port = fake.opened[-1]
+                ret = mon.write(v)
+                want = (str(v) + nl).encode("utf-8")
+                if ret != str(v) or port.sent != [want]:
+                    hist = [("newline", (repr(nl), repr(v)), {})]
+                    msg = f"newline={nl!r}: write({v!r}) returned {ret!r} and sent {port.sent!r}, expected {want!r}"
+                    report.violation(explore.history_key(ID, "SerialMonitor", hist), f"SerialMonitor: {msg}", {"subject": "SerialMonitor", "values": [repr(v)], "newline": nl, "message": msg})
         # unconnected monitor: returns the text, sends nothing, read() demands a connection
         n += 1
         C.serial = None
